@@ -216,6 +216,16 @@ def rule_substitutions(ctx: Ctx):
                     why = f"replacement {rep!r} must be empty, or one character of the class with n = 1 (n = {lo})"
         else:
             why = "not re.sub(<constant>, <constant>, text) without flags"
+        # the class C is computed with the standard library's semantics of \\s / \\w / \\d (rx._category: \\s is str.isspace).  Another engine bound to
+        # the name `re` defines them differently (the `regex` module's \\s is Unicode White_Space: U+001C..U+001F are not in it), so a run of what
+        # Python calls whitespace would survive
+        from ..external import origin_of
+        origin = origin_of(m.imports, c.func) or ""
+        uses_category = ok and isinstance(c.args[0], ast.Constant) and any(str(o_) == "CATEGORY" for o_, _a in (sr[0] if sr else ()))
+        if uses_category and origin.split(".")[0] != "re":
+            ok, why = False, (f"the pattern uses a character category and `re` is bound to `{origin.split('.')[0]}` here: its categories differ from the "
+                              "standard library's (\\s: U+001C..U+001F are whitespace for str.isspace and stdlib re, not for the regex module), so runs of those "
+                              "characters are left in place")
         ctx.ob("R-C20-4", f"clean.{s.name}/run-collapse", ok,
                "lemma: re.sub(C{n,}, R, t) with R = '' (or R in C, |R| = 1, n = 1) leaves no run of C longer than |R| (n=1) / no run >= n, is idempotent and keeps "
                f"every character outside C in order -- {why}", node=s, mod=m)
